@@ -152,6 +152,9 @@ def lottery_case(rng, L):
     from drivers.C11 import random_mps
 
     procs = random_processes(rng, L)
+    if L >= 3 and rng.random() < 0.35:  # gate-local style lists: nothing on the leftmost site(s)
+        procs = [p for p in procs if min(p["sites"]) >= 1] or [{"name": "lowering", "sites": [L - 1], "strength": 0.3},
+                                                                {"name": "pauli_z", "sites": [L - 1], "strength": 0.2}]
     nm = NoiseModel([dict(p) for p in procs])
     mps = random_mps(rng, L, 3)
     scale = float(rng.uniform(0.6, 1.0))
